@@ -141,3 +141,115 @@ Print Assumptions C13Bls_sparse_id_truncation_refuted.
 Theorem C13Bls_sparse_indices_total : forall h t, wf_tree h t -> exists ids, sparse_indices t = Ok ids.
 Proof. exact sparse_indices_total. Qed.
 Print Assumptions C13Bls_sparse_indices_total.
+
+(* ====================================================================================================== *)
+(** Second round (Proofs/BlsTreeSparse.v, BlsTreeMerge.v, BlsTreeRoundtrip.v, BlsTreeClosed.v): the items
+    left partial above. *)
+From GV Require Import Proofs.BlsTreeSparse Proofs.BlsTreeMerge Proofs.BlsTreeRoundtrip.
+
+(** (2) walkFromRoot / SparseIndices on any tree satisfying the invariant: total; every id listed once; the
+    listed ids are EXACTLY the maximal nodes whose stored signature is set ([is_max]: node (d, off) is set and
+    [anc_setb .. 0 d off = false], i.e. no proper ancestor up to and including the root is set). *)
+Theorem C13Bls_sparse_indices_maximal : forall msg h t, inv msg h t ->
+  exists ids, sparse_indices t = Ok ids /\ NoDup ids /\ forall x, In x ids <-> is_max h (t_sigs t) x.
+Proof. exact sparse_indices_spec. Qed.
+Print Assumptions C13Bls_sparse_indices_maximal.
+
+(** no listed node has a set (a fortiori: listed) proper ancestor, m >= 1 levels up *)
+Theorem C13Bls_sparse_no_listed_ancestor : forall h sigs d off m, maxb h sigs (m + d) off = true -> (1 <= m)%nat ->
+  set_at sigs (nidx h d (upn m off)) = false.
+Proof. exact max_no_set_ancestor. Qed.
+Print Assumptions C13Bls_sparse_no_listed_ancestor.
+
+(** the real-leaf ranges of the listed nodes cover exactly the bit set and are pairwise disjoint *)
+Theorem C13Bls_sparse_indices_cover : forall msg h t ids, inv msg h t -> sparse_indices t = Ok ids ->
+  (forall i, N.testbit (t_bits t) i = true <-> exists x, In x ids /\ In i (leaves_of (t_keys t) x)) /\
+  (forall x y i, In x ids -> In y ids -> In i (leaves_of (t_keys t) x) -> In i (leaves_of (t_keys t) y) -> x = y).
+Proof.
+  intros msg h t ids Hinv E. split; [exact (sparse_cover msg h t ids Hinv E)|exact (sparse_disjoint msg h t ids Hinv E)].
+Qed.
+Print Assumptions C13Bls_sparse_indices_cover.
+
+(** (1) Merge of two API-built proofs over the same keys: total, keeps the invariant; if message or key hash differ
+    nothing happens and all flags are false; otherwise bits afterwards = bits of p UNION bits of o,
+    AllValidSignatures = true, IncreasedSignatures iff the count grew, WasStrictSuperset = looksLikeStrictSuperset
+    (both empty, or o's Count greater and o a superset - bitset v1.20) /\ AllValid, as the Go code computes it. *)
+Theorem C13Bls_merge_spec : forall p o, pinv p -> pinv o -> t_keys (p_tree p) = t_keys (p_tree o) ->
+  exists p', merge p o =
+             Ok (p', if matches p o
+                     then mk_flags true (popcount (p_bits p) <? popcount (p_bits p'))
+                                   (looks_superset_b (p_bits o) (p_bits p))
+                     else no_flags) /\
+    pinv p' /\ p_msg p' = p_msg p /\ p_hash p' = p_hash p /\
+    t_keys (p_tree p') = t_keys (p_tree p) /\ t_n (p_tree p') = t_n (p_tree p) /\
+    (forall i, N.testbit (p_bits p') i = true <->
+               N.testbit (p_bits p) i = true \/ (matches p o = true /\ N.testbit (p_bits o) i = true)).
+Proof. exact merge_spec. Qed.
+Print Assumptions C13Bls_merge_spec.
+
+(** "WasStrictSuperset means o's signers strictly contain p's" is FALSE of the model and of the code (the Go
+    comment concedes it): merging an empty proof into an empty proof reports WasStrictSuperset = true. *)
+Theorem C13Bls_merge_superset_strict_refuted : exists n, merge_superset_of_equal n = true.
+Proof. exact merge_superset_strict_refuted. Qed.
+Print Assumptions C13Bls_merge_superset_strict_refuted.
+
+(** (3) the POSITIVE sparse round trip for n <= 32768: AsSparse lists the maximal nodes; a fresh Derive()d proof
+    after MergeSparse(AsSparse p) has exactly p's bits, AllValid = true, Increased iff p is not empty. *)
+Theorem C13Bls_sparse_roundtrip : forall p, pinv p -> t_n (p_tree p) <= 32768 ->
+  exists ids q,
+    sparse_indices (p_tree p) = Ok ids /\
+    as_sparse p = Ok (p_hash p, map (sparse_entry_of p) ids) /\
+    merge_sparse (derive p) (p_hash p) (map (sparse_entry_of p) ids) =
+      Ok (q, mk_flags true (0 <? popcount (p_bits p)) false) /\
+    pinv q /\ p_bits q = p_bits p.
+Proof. exact sparse_roundtrip. Qed.
+Print Assumptions C13Bls_sparse_roundtrip.
+
+From GV Require Import Proofs.BlsTreeClosed Proofs.BlsTreeCanon Proofs.BlsTreeWitness2.
+
+(** Every proof reachable through the API satisfies the invariant AND is closed: a set node whose parent is not
+    set has a keyed, unset sibling (the cascade of Tree.AddSignature always aggregates what it can). *)
+Theorem C13Bls_reachable_closed : forall ops r p,
+  reg_get (regs_after [] ops) r = Some p -> pinv p /\ pcl p.
+Proof. exact reachable_pinv_pcl. Qed.
+Print Assumptions C13Bls_reachable_closed.
+
+(** In a closed tree the maximal set nodes are exactly the canonical nodes of the bit set: full (has a real leaf,
+    all real leaves signed) with a parent that is not full.  So the sparse form is a function of the bits. *)
+Theorem C13Bls_maximal_is_canonical : forall msg h t d off, inv msg h t -> closed h t -> (d <= h)%nat -> off < p2 d ->
+  (maxb h (t_sigs t) d off = true <-> canon h (t_n t) (t_bits t) d off).
+Proof. exact max_canon. Qed.
+Print Assumptions C13Bls_maximal_is_canonical.
+
+Theorem C13Bls_sparse_canonical : forall p q ids ids', pinv p -> pcl p -> pinv q -> pcl q ->
+  t_n (p_tree p) = t_n (p_tree q) -> p_bits p = p_bits q ->
+  sparse_indices (p_tree p) = Ok ids -> sparse_indices (p_tree q) = Ok ids' -> Permutation ids ids'.
+Proof. exact sparse_canonical. Qed.
+Print Assumptions C13Bls_sparse_canonical.
+
+(** (3), second half: the derived proof after MergeSparse(AsSparse p) lists the same ids as p (idempotence of the
+    sparse form), for n <= 32768; the hypotheses hold for every reachable proof (C13Bls_reachable_closed). *)
+Theorem C13Bls_sparse_roundtrip_ids : forall p, pinv p -> pcl p -> t_n (p_tree p) <= 32768 ->
+  exists ids q ids',
+    sparse_indices (p_tree p) = Ok ids /\
+    merge_sparse (derive p) (p_hash p) (map (sparse_entry_of p) ids) =
+      Ok (q, mk_flags true (0 <? popcount (p_bits p)) false) /\
+    p_bits q = p_bits p /\ sparse_indices (p_tree q) = Ok ids' /\ Permutation ids' ids.
+Proof. exact sparse_roundtrip_ids. Qed.
+Print Assumptions C13Bls_sparse_roundtrip_ids.
+
+From GV Require Import Monitors.C13Blsm Proofs.BlsTreeMonBase Proofs.BlsTreeMonitor.
+
+(** (4) model_satisfies_monitor as a theorem: the monitor C13Blsm (the set-union specification that judges the
+    real code's observations on every run) accepts the model's own run of ANY operation sequence - New,
+    AddSignature with any key and signature, Merge, MergeSparse with any entries, MergeSparse(AsSparse),
+    HasSparseKeyID, AsSparse, Clone, Derive, SignatureBitSet, unknown registers - provided every constructed key
+    set has at most 32768 keys or is rejected by the constructor ([op_small]). *)
+Theorem C13Bls_model_satisfies_monitor : forall ops, Forall op_small ops -> c13bls_mon ops (run ops) = None.
+Proof. exact model_satisfies_monitor. Qed.
+Print Assumptions C13Bls_model_satisfies_monitor.
+
+(** the guard is exact in kind: with 32769 keys the monitor rejects the model's sparse round trip (the known finding) *)
+Theorem C13Bls_model_satisfies_monitor_guard_needed : exists ops, c13bls_mon ops (run ops) <> None.
+Proof. exact model_satisfies_monitor_guard_needed. Qed.
+Print Assumptions C13Bls_model_satisfies_monitor_guard_needed.
